@@ -445,6 +445,7 @@ func (e *Executor) startExecution(ctx context.Context, t *ast.Task, execute func
 			// Waiting for an execution that (directly or through other waits)
 			// waits for us would never end: the tasks reference each other.
 			if other.waitsFor(parent) {
+				verifhook.Ev(ctx, "waitCycle", h)
 				e.executionHashesMutex.Unlock()
 				return &errors.TaskCalledTooManyTimesError{
 					TaskName:        t.Task,
